@@ -3,7 +3,7 @@ use std::marker::PhantomData;
 #[allow(unused_imports)] use any_vec::traits::{Cloneable, None as TNone};
 #[allow(unused_imports)] use anyvec_mc::elem::*;
 use anyvec_mc::exec::{Cfg, Runner};
-#[allow(unused_imports)] use anyvec_mc::track::{Track, TrackFence, TrackFixed, TrackGreedy, TrackTight, TrackWarm};
+#[allow(unused_imports)] use anyvec_mc::track::{Track, TrackFence, TrackFixed, TrackGreedy, TrackKey, TrackTight, TrackWarm};
 use anyvec_mc::Entry;
 #[cfg(feature = "alloc")] #[allow(unused_imports)] use any_vec::mem::Heap;
 
@@ -26,6 +26,7 @@ fn cfgs() -> Vec<Entry> {
     c!(v, true,"fixed",W8D,TrackFixed<4>,dyn Cloneable);
     c!(v, true,"general",W8D,TrackWarm,dyn Cloneable);
     c!(v, true,"general",T3D,TrackGreedy,dyn Cloneable);
+    c!(v, true,"general",W8D,TrackKey,dyn Cloneable); // stateful builder, raw parts with a ticket handle, keyed Mem, warm build
     v
 }
 fn main() { anyvec_mc::main_with(cfgs) }
